@@ -188,7 +188,7 @@ def check_netlist(ctx, i, rng, n, st, phase):
     """All start points of one netlist state; returns None after a violation / discard, else (fingerprint, nontrivial, sample)."""
     hwires = list(sdn.get_hwires(n, recursive=True))
     hpins = list(sdn.get_hpins(n, recursive=True))
-    if len(hwires) + len(hpins) > 3500:
+    if len(hwires) + len(hpins) > 2500:
         ctx.count("discarded_too_large")
         return None
     uf = UFD()
@@ -207,7 +207,7 @@ def check_netlist(ctx, i, rng, n, st, phase):
     classes = collections.defaultdict(set)
     for k in list(uf.p):
         classes[uf.find(k)].add(k)
-    cap = 400 if ctx.tier == "quick" else 2000
+    cap = 400 if ctx.tier == "quick" else 500      # (starts per kind: a trace costs up to a fifth of a second on nets with hundreds of pins)
     spans = any(len(set(len(k) for k in c)) > 1 for c in classes.values())
     only_inst = False
     # starts: hierarchical pins
